@@ -448,6 +448,13 @@ pub fn check(case: &Case, _tier: Tier) -> Outcome {
     if content_calls.is_empty() {
       continue;
     }
+    // the cache-only probe of a file that is not cached consumes no content
+    let consumed = content_calls.iter().any(|c| {
+      c.cache != "only" || Url::parse(u).map(|x| b.cache.contains(&x)).unwrap_or(false)
+    });
+    if !consumed {
+      continue;
+    }
     if actual != exp {
       nontrivial = true;
       if u.ends_with("_meta.json") {
